@@ -21,6 +21,7 @@ import (
 	"strconv"
 	"strings"
 	"sync"
+	"syscall"
 	"time"
 
 	"github.com/google/martian/v3"
@@ -634,9 +635,6 @@ func (e *Ex) start() {
 	e.originTLSAddr = e.otl.Addr().String()
 	go e.serveOrigin(e.ol, false)
 	go e.serveOrigin(e.otl, true)
-	e.dead = listen()
-	deadAddr := e.dead.Addr().String()
-	e.dead.Close() // nothing listens there any more
 	e.echo = listen()
 	go func() {
 		for {
@@ -673,7 +671,9 @@ func (e *Ex) start() {
 		}
 		e.w.mu.Unlock()
 		if strings.HasPrefix(addr, "dead.") {
-			return net.DialTimeout(network, deadAddr, 2*time.Second)
+			// a synthesised refusal: dialling a port that was free a moment ago is not deterministic
+			// when other processes allocate ephemeral ports (it once reached another proxy and looped)
+			return nil, &net.OpError{Op: "dial", Net: network, Err: syscall.ECONNREFUSED}
 		}
 		if strings.HasPrefix(addr, "timeout.") { // what an unresponsive host produces, without the wait
 			return nil, &net.OpError{Op: "dial", Net: network, Err: timeoutError{}}
